@@ -316,11 +316,41 @@ def constructors_ok(facts, adt, allowed, configs_note=""):
     return n, bad
 
 
+ORDER_CALLS = {"ge": "ge", "le": "le", "gt": "gt", "lt": "lt"}
+
+
+def strict_order_guard(body, variant):
+    """an Err(variant) guard that rejects exactly when two keys are NOT strictly ordered: the error edge is
+    taken when `a >= b` / `a <= b` is true, or when `a < b` / `a > b` is false"""
+    found = []
+    for (sw, err_edge) in guard_switches(body, variant):
+        t = body.term(sw)
+        # the switch value that leads to the error edge
+        err_vals = [v for (v, tb) in t["vals"] if tb == err_edge]
+        if t["else"] == err_edge:
+            err_truth = True if [v for (v, tb) in t["vals"]] == ["0"] else None
+        elif err_vals:
+            err_truth = err_vals[0] != "0"
+        else:
+            err_truth = None
+        for r in trace(body, t["d"]):
+            if r.kind == "call":
+                m = r.what.rsplit("::", 1)[-1]
+                if m in ORDER_CALLS and ("PartialOrd" in r.what or "cmp::" in r.what):
+                    strict = (m in ("ge", "le") and err_truth is True) or (m in ("lt", "gt") and err_truth is False)
+                    found.append((sw, m, err_truth, strict, r.obj.get("ln") if r.obj else None))
+            if r.kind == "binop" and r.obj is not None and r.obj.get("op") in ("Ge", "Le", "Gt", "Lt"):
+                m = r.obj["op"].lower()
+                strict = (m in ("ge", "le") and err_truth is True) or (m in ("lt", "gt") and err_truth is False)
+                found.append((sw, m, err_truth, strict, None))
+    return found
+
+
 def run(facts, rep, cfg="default"):
     reach, inv = inventory(facts)
     disp = PS.SITES
     seen_keys = set()
-    counts = {"guarded": 0, "reviewed": 0, "invariant": 0, "finding": 0, "none": 0}
+    counts = {"guarded": 0, "reviewed": 0, "invariant": 0, "precondition": 0, "finding": 0, "none": 0}
     inv_checked = {}
     for s in inv:
         key = s["key"]
@@ -397,6 +427,20 @@ def run(facts, rep, cfg="default"):
             rep.ok("panicfree", fnk, "invariant|" + key.split("|", 1)[1], detail="`%s` safe under invariant `%s` (%d constructions checked)" % (s["snip"], PS.INVARIANTS[name]["text"], inv_checked[name][0]))
         elif kind == "reviewed":
             rep.ok("panicfree", fnk, "reviewed|" + key.split("|", 1)[1], detail=None)
+        elif kind == "precondition":
+            pname = d[1]
+            if pname not in inv_checked:
+                spec = PS.PRECONDITIONS[pname]
+                inv_checked[pname] = True
+                for pf in spec["functions"]:
+                    b = facts.bodies.get(pf)
+                    if b is None:
+                        rep.violation("panicfree", pf, "precondition=%s|function-missing" % pname, "function %s that establishes `%s` no longer exists" % (pf, spec["text"]))
+                        continue
+                    gs = strict_order_guard(b, spec["variant"])
+                    ok = any(g[3] for g in gs)
+                    rep.check(ok, "panicfree", pf.split("::", 1)[1], "precondition=%s|established" % pname, "%s no longer rejects (Err(%s)) exactly the operation lists that are not strictly ascending: panic sites in the sub-trie builder rely on `%s` (found comparisons: %s)" % (pf, spec["variant"], spec["text"], [(g[1], g[2]) for g in gs]), site=b.span, detail="Err(%s) taken when %s" % (spec["variant"], [(g[1], g[2]) for g in gs if g[3]]))
+            rep.ok("panicfree", fnk, "precondition|" + key.split("|", 1)[1], detail=None)
         elif kind == "finding":
             rep.violation("panicfree", fnk, "site|" + key.split("|", 1)[1], "panic site reachable with prover-controlled values and no guard: `%s` at %s - %s" % (s["snip"], s["ln"], d[1]), site=s["ln"])
     stale = [k for k in disp if k not in seen_keys]
